@@ -106,6 +106,9 @@ pub struct InstDef
     pub origin: Origin,
     /// `scripts[min(run-1, last)]` is executed by run number `run` (1-based).
     pub scripts: Vec<Vec<Op>>,
+    /// pre-spawned instances only: spawned with `spawn_rc_system_command(_from)`; the harness keeps the only signal clone
+    #[serde(default)]
+    pub rc: bool,
 }
 
 impl InstDef
@@ -135,6 +138,11 @@ pub enum WOp
     Poll,
     Flush,
     KillInst(Inst),
+    /// Drop the signal of a ref-counted system command (`InstDef::rc`): collected by the next garbage collection.
+    DropInstSig(Inst),
+    /// Driver level only. Spawn a ref-counted system through one of the four `spawn_rc_*` routes (`variant % 4`), drop the signal at
+    /// once (all of it, or keep one clone if `hold`), collect, observe; drop the kept clone, collect, observe.
+    RcScratch(u8, bool),
     /// `world.send_system_event`.
     SysEvent(Inst, P),
     /// `world.broadcast`.
